@@ -56,19 +56,19 @@ func (t *transformer) send(w io.Writer) error {
 			return err
 		}
 	}
-	// write binary
-	size, err := t.f.Seek(0, io.SeekEnd)
+	// write binary. Read it through a section reader (pread): this goroutine can still be
+	// running when Apply() starts reading the same *os.File, so it must not move the shared
+	// file offset.
+	info, err := t.f.Stat()
 	if err != nil {
 		return err
 	}
+	size := info.Size()
 	hdr := &tar.Header{Name: "exec", Mode: 0755, Size: size}
 	if err := tw.WriteHeader(hdr); err != nil {
 		return err
 	}
-	if _, err := t.f.Seek(0, 0); err != nil {
-		return err
-	}
-	if _, err := io.Copy(tw, t.f); err != nil {
+	if _, err := io.Copy(tw, io.NewSectionReader(t.f, 0, size)); err != nil {
 		return err
 	}
 	return tw.Close()
